@@ -3,7 +3,7 @@ import itertools
 
 import numpy as np
 
-from .. import core, fit_lib as fl, gemini_lib as gl
+from .. import core, fit_lib as fl, gemini_lib as gl, optim_lib
 from translator import nets as tn, tables
 from . import c15
 
@@ -426,7 +426,9 @@ def run(ctx):
                 "parameters at scales 0.2..4 (far from initialisation) vs the Lean model; (B) real fits of 10 families x 13 GEMINIs x "
                 "{adam,sgd} x batch sizes {None,1,2,n-1,n} x plain/mlcl-decorated, every captured optimiser call compared with "
                 "Richardson central differences of the regularised objective along random per-parameter directions; kinks "
-                "(ReLU, TV, OT, Douglas ties) detected by one-sided slopes and skipped; non-trivial = fit completed")
+                "(ReLU, TV, OT, Douglas ties) detected by one-sided slopes and skipped; non-trivial = fit completed; (C) SGD/Adam as GemClus builds them: "
+                "the real optimiser objects on lists of arrays and the weight trajectories of real fits (observed _update_weights) vs the Lean "
+                "model Model/Optim.lean per coordinate and vs the documented update rules")
     regen(ctx)
     c15.regen(ctx)          # Douglas is one of C03's families: Gen/Douglas.lean + companion C15Gen
     ctx.do_prove()
@@ -455,4 +457,6 @@ def run(ctx):
         if not core.close_vec(list(map(float, vals)), m, rtol=1e-9):
             ctx.corr_break("model:" + unit, inp, {"impl": list(map(float, vals)), "model": m})
     fit_cases(ctx, rs, 54 if ctx.tier == "quick" else 400)
+    # (C) the optimiser layer: Model/Optim.lean + Props/C03Optim.lean (own generator: does not shift the draws above)
+    optim_lib.run_block(ctx, np.random.RandomState(ctx.seed * 1009 + 77))
     return ctx.finish()
